@@ -305,7 +305,26 @@ def cases():
     return st.one_of(arith, arith, cmpc, cmpeq, divc, shift, power, un, nt)
 
 
+def boundary_values():
+    vals = set()
+    for b in BOUNDARY:
+        for d in (-2, -1, 0, 1, 2):
+            for sgn in (1, -1):
+                vals.add(sgn * (b + d))
+    return sorted(vals)
+
+
 def worker(ctx):
+    # exhaustive boundary x boundary grid for the operators with machine-word fast paths, with operands
+    # produced both as (big-representation) arithmetic and through int("...") (normalised representation)
+    vals = boundary_values()
+    grid_ops = ["//", "%", "%%", "/!", "*", "+", "-", "gcd", "<=>"] if ctx.thorough else ["//", "%%", "/!", "*", "-"]
+    jobs = [(a, op) for a in vals for op in grid_ops]
+    for n, (a, op) in enumerate(jobs):
+        if n % ctx.nworkers != ctx.index:
+            continue
+        batch = [{"op": op, "a": a, "b": b, "fa": fa, "fb": fb} for b in vals for fa, fb in (("str", "str"), ("lit", "str"), ("str", "diff"))]
+        ctx.check("batch", batch)
     total = ctx.scale(4000, 95000)
     n = ctx.share(total)
 
